@@ -12,7 +12,7 @@
    means is outside these theorems (it is checked with a tolerance by the
    harness and the monitor). *)
 From Coq Require Import List ZArith Bool.
-From Verif Require Import C15.Model C15.Spec C15.Proofs C15.Witness.
+From Verif Require Import C15.Model C15.Spec C15.Proofs C15.Witness C15.Faults C15.FaultsProofs.
 Import ListNotations.
 Open Scope Z_scope.
 
@@ -277,3 +277,185 @@ Example C15_colon_in_method_loses_an_endpoint :
   count_where everywhere (sE s) = 3 /\
   count_where everywhere (sE (restore (persist s))) = 2.
 Proof. vm_compute. split; reflexivity. Qed.
+
+(* ====================================================================== *)
+(* 6. The state file can fail to be written (Faults.v).
+
+   [fbs : list fbatch] is a whole history of the runner/state layer: every
+   flush of sections 1-5 (records, restart-before flag, oracle) plus a flag
+   "the write of the state file fails during this flush" — any stream, any
+   batching, ANY set of failing writes, a restart before any flush.  The state
+   is (memory, file); a restart reads the FILE back.  [fstate true] is the code
+   as it is (State.UpdateAggregation assigns, then writes); [fstate false] the
+   write-then-assign variant. *)
+
+(* (a) Nothing is lost by a failed write.  After any history the memory is
+   exactly what the fault-free pipeline of sections 1-5 ([run]) computes for the
+   history [survivors fbs], and the file holds [run (durable fbs)]:
+   [survivors]/[durable] (Faults.v, [eff_step]) are computed from the flags
+   alone — a flush whose write failed stays in [survivors]; only a restart
+   removes flushes, namely those not yet covered by a successful write.  So
+   every theorem above (refinement, conservation, extreme times, invariance)
+   holds for the memory with [bs := survivors fbs].  Without a restart
+   [survivors fbs] is the whole history: the fault flags are irrelevant. *)
+Theorem C15_failed_writes_lose_nothing : forall fbs,
+  let y := fstate true fbs in
+  mem y = run (survivors fbs) /\
+  disk y = persist (run (durable fbs)) /\
+  (no_restart (map fb_batch fbs) -> survivors fbs = map fb_batch fbs) /\
+  (batches_ok (map fb_batch fbs) -> batches_ok (survivors fbs) /\ wf_state (mem y)).
+Proof.
+  intros fbs. cbn zeta. destruct (effective fbs) as [M D].
+  split; [exact M|]. split; [exact D|]. split; [exact (survivors_no_restart fbs)|].
+  intros H. split; [now apply survivors_ok | now apply wf_mem].
+Qed.
+Print Assumptions C15_failed_writes_lose_nothing.
+
+(* spelled out: the in-memory request counts add up to the number of
+   non-internal records of ALL surviving flushes (failed writes included), per
+   endpoint the count is the sum of its status counts, the duration sums are
+   the sums of the durations *)
+Theorem C15_conservation_under_failed_writes : forall fbs,
+  batches_ok (map fb_batch fbs) ->
+  let s := mem (fstate true fbs) in let bs := survivors fbs in
+  count_where everywhere (sE s) = nrec bs everywhere /\
+  (forall k, cnt_of (mfind key_eqb k (sE s))
+             = sum_where (fun ks => key_eqb (fst ks) k) (sES s)) /\
+  (forall st, sum_where (fun ks => snd ks =? st) (sES s)
+              = nrec bs (fun r => r_status r =? st)) /\
+  dsum_where everywhere (sE s) = fold_right Z.add 0 (map r_dur (all_accepted bs)) /\
+  count_where everywhere (sC s) = nrec bs everywhere /\
+  (no_restart (map fb_batch fbs) -> bs = map fb_batch fbs).
+Proof.
+  intros fbs H. cbn zeta. rewrite (proj1 (effective fbs)).
+  destruct (C15_conservation (survivors fbs) (survivors_ok fbs H))
+    as (A & _ & B & C & D & _ & E & _).
+  repeat apply conj; try assumption. exact (survivors_no_restart fbs).
+Qed.
+Print Assumptions C15_conservation_under_failed_writes.
+
+(* What a flush does to the file and what Run returns: a flush that does not
+   write (empty batch, or failing write) leaves the file as it was — in both
+   variants; Run reports the dump error exactly for a non-empty batch whose
+   write fails. *)
+Theorem C15_failed_write_leaves_file_and_is_reported : forall v y fb,
+  (writes fb = false -> disk (fstep v y fb) = disk y) /\
+  (run_result fb = RunDumpError <-> b_recs (fb_batch fb) <> [] /\ fb_fail fb = true).
+Proof.
+  intros v y fb. split.
+  - intros H. now rewrite disk_fstep, H.
+  - unfold run_result, attempts_write.
+    destruct (b_recs (fb_batch fb)); destruct (fb_fail fb); cbn;
+      split; try discriminate; try (intros [A B]; congruence); intros _; split;
+      try discriminate; reflexivity.
+Qed.
+Print Assumptions C15_failed_write_leaves_file_and_is_reported.
+
+(* (b) Any later successful write brings the file up to date with the memory
+   (which by (a) still contains the flushes whose writes failed): reading it
+   back gives the memory with the time fields floored to the second — the
+   statement of C15_persist_roundtrip. *)
+Theorem C15_successful_write_resynchronises_file : forall pre w,
+  batches_ok (map fb_batch (pre ++ [w])) -> writes w = true ->
+  let y := fstate true (pre ++ [w]) in
+  disk y = persist (mem y) /\
+  restore (disk y) = fl_state (mem y) /\
+  (aligned_state (mem y) -> restore (disk y) = mem y) /\
+  agg_total (sE (restore (disk y))) = option_map fl (agg_total (sE (mem y))) /\
+  agg_total (sC (restore (disk y))) = option_map fl (agg_total (sC (mem y))) /\
+  sES (restore (disk y)) = sES (mem y) /\ sCS (restore (disk y)) = sCS (mem y).
+Proof.
+  intros pre w H W. cbn zeta.
+  assert (D : disk (fstate true (pre ++ [w])) = persist (mem (fstate true (pre ++ [w])))).
+  { unfold fstate. rewrite fstate_snoc. now apply written_is_memory. }
+  split; [exact D|]. rewrite D. apply C15_persist_roundtrip. now apply wf_mem.
+Qed.
+Print Assumptions C15_successful_write_resynchronises_file.
+
+(* (c) A restart loses exactly the flushes processed after the last successful
+   write [w] — [mid], none of which wrote — and nothing else: the restarted
+   flush [r] continues from the memory as it was right after [w] (which by (a)
+   contains every earlier flush, failed writes included), read back from the
+   file, i.e. Model.v's restart step applied to that memory.  With no
+   successful write at all it continues from the empty aggregation. *)
+Theorem C15_restart_loses_exactly_unwritten_flushes : forall mid r,
+  Forall (fun fb => writes fb = false) mid ->
+  b_restart (fb_batch r) = true ->
+  (forall pre w, writes w = true ->
+     mem (fstate true (pre ++ w :: mid ++ [r]))
+     = step (mem (fstate true (pre ++ [w]))) (fb_batch r)) /\
+  mem (fstate true (mid ++ [r])) = step empty_state (fb_batch r).
+Proof.
+  intros mid r Hmid R. split.
+  - intros pre w W. now apply restart_after_write.
+  - now apply restart_without_write.
+Qed.
+Print Assumptions C15_restart_loses_exactly_unwritten_flushes.
+
+(* (d) "Lose no traffic" for a given order of assign/write, without restart:
+   the memory counts every non-internal record of every flush, and so does the
+   file read back after a final successful write. *)
+Definition C15_lose_no_traffic_with (assign_first : bool) : Prop :=
+  forall fbs, batches_ok (map fb_batch fbs) -> no_restart (map fb_batch fbs) ->
+    let y := fstate assign_first fbs in
+    count_where everywhere (sE (mem y)) = nrec (map fb_batch fbs) everywhere /\
+    (forall pre w, fbs = pre ++ [w] -> writes w = true ->
+       count_where everywhere (sE (restore (disk y))) = nrec (map fb_batch fbs) everywhere).
+
+Theorem C15_lose_no_traffic_with_failed_writes : C15_lose_no_traffic_with true.
+Proof. exact lose_no_traffic_true. Qed.
+Print Assumptions C15_lose_no_traffic_with_failed_writes.
+
+(* three flushes of GET a/1 (2, 3 and 1 records); the write of the second fails *)
+Definition fw_flush (rs : list rec) (restart fail : bool) : fbatch :=
+  mkFB (mkBatch rs restart false (fun u => u) (fun u => u) (fun u => u) (fun u => u)) fail.
+Definition fw_witness : list fbatch :=
+  [ fw_flush [demo_rec [97; 47; 49] 200 1700000000123 []; demo_rec [97; 47; 49] 200 1700000001123 []]
+             false false;
+    fw_flush [demo_rec [97; 47; 49] 200 1700000002123 []; demo_rec [97; 47; 49] 201 1700000003123 [];
+              demo_rec [97; 47; 49] 404 1700000004123 []] false true;
+    fw_flush [demo_rec [97; 47; 49] 500 1700000005123 []] false false ].
+
+(* The write-then-assign variant loses the flush whose write failed: 3, not 6. *)
+Theorem C15_lose_no_traffic_write_then_assign_refuted : ~ C15_lose_no_traffic_with false.
+Proof.
+  intros F.
+  assert (O : batches_ok (map fb_batch fw_witness)) by (vm_compute; repeat constructor; discriminate).
+  assert (N : no_restart (map fb_batch fw_witness)) by (vm_compute; repeat constructor).
+  destruct (F fw_witness O N) as [M _].
+  vm_compute in M. discriminate M.
+Qed.
+Print Assumptions C15_lose_no_traffic_write_then_assign_refuted.
+
+(* Non-vacuity.  The witness under the code as it is: Run reports the failed
+   dump, memory and the file read back count all 6 records with all their
+   status codes; under the variant both count 3 and the 201/404 are gone. *)
+Example C15_fw_witness_runs :
+  map run_result fw_witness = [RunOk; RunDumpError; RunOk] /\
+  count_where everywhere (sE (mem (fstate true fw_witness))) = 6 /\
+  count_where everywhere (sE (restore (disk (fstate true fw_witness)))) = 6 /\
+  map snd (sES (mem (fstate true fw_witness))) = [3; 1; 1; 1] /\
+  count_where everywhere (sE (mem (fstate false fw_witness))) = 3 /\
+  count_where everywhere (sE (restore (disk (fstate false fw_witness)))) = 3 /\
+  map snd (sES (mem (fstate false fw_witness))) = [2; 1] /\
+  writes (fw_flush [demo_rec [97] 500 1700000005123 []] false false) = true.
+Proof. vm_compute. repeat split; reflexivity. Qed.
+
+(* a restart right after the failed write: the second flush is lost (inherent:
+   the file never held it), the first — written — and the third are counted;
+   a restart after the third flush loses nothing although a write failed *)
+Definition fw_restart_early : list fbatch :=
+  [ nth 0 fw_witness (fw_flush [] false false); nth 1 fw_witness (fw_flush [] false false);
+    fw_flush [demo_rec [97; 47; 49] 500 1700000005123 []] true false ].
+Definition fw_restart_late : list fbatch :=
+  fw_witness ++ [fw_flush [] true false].
+
+Example C15_fw_restart :
+  length (survivors fw_restart_early) = 2%nat /\
+  count_where everywhere (sE (mem (fstate true fw_restart_early))) = 3 /\
+  nrec (survivors fw_restart_early) everywhere = 3 /\
+  length (survivors fw_restart_late) = 4%nat /\
+  count_where everywhere (sE (mem (fstate true fw_restart_late))) = 6 /\
+  Forall (fun fb => writes fb = false) [nth 1 fw_witness (fw_flush [] false false)] /\
+  b_restart (fb_batch (fw_flush [demo_rec [97; 47; 49] 500 1700000005123 []] true false)) = true.
+Proof. vm_compute. repeat split; try reflexivity. repeat constructor. Qed.
